@@ -20,6 +20,8 @@ class PathMutModel(setters.SetterModel):
         if is_self and base == 'make_root' and 'PathMutImpl' in name and getattr(p, 'entry', '') != name:
             # make_root is verified as a mutator of its own (one splice: "" -> "/" after an authority). By the handle invariant the
             # state it leaves is an arbitrary valid one in which the path is "/" and follows an authority: forget the pre-state.
+            if not hasattr(p, 'entry_assume'):
+                p.entry_assume = list(p.assume)         # what was tested on the text the operation was called on (the case rule of pop reads it)
             p.assume[:] = [(('has', 'a'), True), (('p_in', 'path-is-empty'), True), (('p_in', 'starts-with-slash'), True)]
             s_, e_ = p.heap['SELF'][1], p.heap['SELF'][2]
             p.facts[:] = [e_ - s_, s_, sym('len(W)') - e_, e_ - s_ - 1, Aff({}, 1) - (e_ - s_)]
@@ -46,6 +48,9 @@ class PathMutModel(setters.SetterModel):
             return [('', ('plastbytes',), [])]
         if base in ('eq', 'ne') and len(args) == 2 and isinstance(a0, tuple) and a0 and a0[0] == 'plastbytes':
             o = args[1]
+            if isinstance(o, tuple) and o[0] == 'item' and len(o) == 3:
+                # `== Some(PARENT_SEGMENT)`: the right-hand side is a promoted constant of the (generic) caller
+                o = ex.promoted_value(o[1], o[2], lits=True) or o
             if isinstance(o, tuple) and o[0] == 'adt' and o[2] == 1 and isinstance(o[3][0], tuple) and o[3][0][0] in ('lit', 'item'):
                 lit = o[3][0][1] if o[3][0][0] == 'lit' else {'common::path::PARENT_SEGMENT': b'..', 'common::path::CURRENT_SEGMENT': b'.'}.get(o[3][0][1])
                 if lit is not None:
@@ -66,7 +71,7 @@ class PathMutModel(setters.SetterModel):
             from . import lang
             return [('', Aff({}, int(bool(lang.predicate_dfa('looks-like-scheme', False).accepts(list(a0[1]))))), [])]
         if base in ('eq', 'ne') and len(args) == 2 and isinstance(a0, tuple) and a0 and a0[0] == 'plastbytes':
-            return [('', ('cond', ('opaque', 'last segment == constant')), [])]
+            raise Unsupported('the last segment is compared with something that is not a constant segment')
         # byte of the buffer at a symbolic position (pop's backward search)
         if re.search(r'<std::vec::Vec<T, A> as std::ops::Index<I>>::index$', name) and len(args) == 2 and isinstance(args[1], Aff):
             return [('', ('byteat', args[1]), [])]
